@@ -40,7 +40,7 @@ def check(c, xs):
         calls.append(x)
 
 
-ARGS = {"W1": [1, 2], "W2": [1, 2, 3], "W3": [1, 2, 3], "W4": [1, 2], "W5": [1, 2], "W6": [1, 2], "W7": [1, 2, 3, 4, 5],
+ARGS = {"W11": [1, 2, 3, 4, 5, 6, 7], "W12": [11, 12, 13, 14, 15, 16, 17], "W1": [1, 2], "W2": [1, 2, 3], "W3": [1, 2, 3], "W4": [1, 2], "W5": [1, 2], "W6": [1, 2], "W7": [1, 2, 3, 4, 5],
         "W8": [1, 2], "W9": [1, 2], "W10": [1, 2]}[W]
 
 if phase == "pre":
@@ -49,6 +49,8 @@ if phase == "pre":
         check(c, [1, 2])
     elif W == "W7":
         check(c, [1, 2, 3, 4])
+    elif W in ("W11", "W12"):
+        check(c, ARGS[:6])
 elif phase == "run":
     if W in ("W1", "W6", "W9", "W10"):
         m, c = mem()
@@ -59,6 +61,10 @@ elif phase == "run":
     elif W == "W3":
         m, c = mem()           # c05funcs.py has been rewritten by the check: new source
         check(c, [1, 3])
+    elif W in ("W11", "W12"):
+        # source changed with six entries of the old code present: the function directory is wiped entry by entry
+        m, c = mem()
+        check(c, [ARGS[0], ARGS[6]])
     elif W == "W4":
         m, c = mem(expires_after(seconds=0))   # every entry is expired: recompute and overwrite
         check(c, [1])
@@ -82,7 +88,7 @@ elif phase == "run":
         check(c, [1])
         m.clear(warn=False)
         check(c, [2])
-elif phase in ("recover", "recover_cb"):
+elif phase in ("recover", "recover_cb", "recover_udcb"):
     # 1) every file visible under its final name must be one complete, legitimate result
     bad = []
     for p in glob.glob(os.path.join(cache, "**", "output.pkl"), recursive=True):
@@ -96,7 +102,11 @@ elif phase in ("recover", "recover_cb"):
     # 2) the cache must be usable: correct values, no exception
     err = None
     try:
-        m, c = mem(expires_after(days=1) if phase == "recover_cb" else None)
+        def user_cb(metadata):
+            # a user-defined callback reading the documented metadata keys (as in joblib's own tests)
+            return metadata["duration"] >= 0 and metadata["time"] > 0
+
+        m, c = mem(expires_after(days=1) if phase == "recover_cb" else (user_cb if phase == "recover_udcb" else None))
         check(c, ARGS)
         check(c, ARGS)
         assert c.check_call_in_cache(ARGS[0]) in (True, False)
